@@ -129,11 +129,11 @@ func H06() {
 	var m, g2 string
 	usesG := "uses g2:g;"
 	if local {
-		m = `module m { yang-version 1.1; namespace "urn:m"; prefix m; import g2 { prefix g2; } import x3 { prefix x3; } feature fa; feature fb; ` + gdefs + `container u1 { uses g { if-feature fa; } } container u2 { uses g { if-feature fb; } } list u3 { key k; leaf k { type string; } uses g; } }`
+		m = `module m { yang-version 1.1; namespace "urn:m"; prefix m; import g2 { prefix g2; } import x3 { prefix x3; } feature fa; feature fb; ` + gdefs + `container u1 { uses g { if-feature fa; } } container u2 { uses g { if-feature fb; } } list u3 { key k; leaf k { type string; } uses g; } rpc u4 { input { uses g; } } notification u5 { uses g; } }`
 		g2 = `module g2 { yang-version 1.1; namespace "urn:g2"; prefix g2; typedef t { type string; } identity idn; }`
 		usesG = "uses mm:g;"
 	} else {
-		m = `module m { yang-version 1.1; namespace "urn:m"; prefix m; import g2 { prefix g2; } feature fa; feature fb; typedef t { type string; } identity idn; container u1 { uses g2:g { if-feature fa; } } container u2 { uses g2:g { if-feature fb; } } list u3 { key k; leaf k { type string; } uses g2:g; } }`
+		m = `module m { yang-version 1.1; namespace "urn:m"; prefix m; import g2 { prefix g2; } feature fa; feature fb; typedef t { type string; } identity idn; container u1 { uses g2:g { if-feature fa; } } container u2 { uses g2:g { if-feature fb; } } list u3 { key k; leaf k { type string; } uses g2:g; } rpc u4 { input { uses g2:g; } } notification u5 { uses g2:g; } }`
 		g2 = `module g2 { yang-version 1.1; namespace "urn:g2"; prefix g2; import x3 { prefix x3; } ` + gdefs + `}`
 	}
 	a := `module a { yang-version 1.1; namespace "urn:a"; prefix a; import m { prefix mm; } import g2 { prefix g2; } container ua { ` + usesG + ` } }`
@@ -176,6 +176,18 @@ func H06() {
 	delete(u3.Dir, "k")
 	check(s1 == h06Sub(u3), "a use inside a list is identical")
 	u3.Dir["k"] = k
+	if u4 := em.Dir["u4"]; u4 != nil && u4.RPC != nil && u4.RPC.Input != nil {
+		check(s1 == h06Sub(u4.RPC.Input), "a use inside an rpc input is identical")
+		h06Disjoint(u1, u4.RPC.Input)
+	} else {
+		check(false, "the rpc user exists")
+	}
+	if u5 := em.Dir["u5"]; u5 != nil {
+		check(s1 == h06Sub(u5), "a use inside a notification is identical")
+		h06Disjoint(u2, u5)
+	} else {
+		check(false, "the notification user exists")
+	}
 	sr := h06Sub(ur)
 	check(hReplaceNS(hReplaceNS(s1, "urn:m", "urn:r"), " im=m", " im=r") == sr, "a use is identical to the grouping's body written inline where the grouping is defined")
 	check(hReplaceNS(hReplaceNS(h06Sub(ua), "urn:a", "urn:r"), " im=a", " im=r") == sr, "a use from another module is identical, in that module's namespace")
